@@ -67,8 +67,28 @@ def predict (hidden : Bool) (pol : Policy) (sCert sPoss : Bool) (cf : CertFacts)
     let c := h && runActs expResponseHidden (env 6 (sPoss && cPoss) sCert true)
     s!"c={b01 c} h={b01 h} d={b01 c}"
 
+/-- `word+opt+opt` -/
+def optsOf (s : String) : String × List String :=
+  match s.splitOn "+" with
+  | w :: opts => (w, opts)
+  | [] => (s, [])
+
+/-- the callback options: installed?, accepts? -/
+def cbOf (opts : List String) : Option (Bool × Bool) :=
+  if opts.all (· ∈ ["skip", "cbok", "cbdeny"]) then
+    some (opts.contains "cbok" || opts.contains "cbdeny", !opts.contains "cbdeny" || opts.contains "cbok")
+  else none
+
 def step (_ : Unit) : List String → Unit × String
-  | ["hs", mode, pol, sAdv, cAdv, listed, name] =>
+  | ["hs", mode, pol0, sAdv, cAdv, listed, name0] =>
+    let (pol, polOpts) := optsOf pol0
+    let (name, nameOpts) := optsOf name0
+    if polOpts.contains "skip" then ((), "bad-op") else
+    match cbOf polOpts, cbOf nameOpts with
+    | none, _ => ((), "bad-op")
+    | _, none => ((), "bad-op")
+    | some (sCbOn, sCbOK), some (cCbOn, cCbOK) =>
+    if name ≠ "name" ∧ name ≠ "noname" then ((), "bad-op") else
     -- ik2, ik3: hidden mode, the addressed certificate is the 2nd / 3rd of the server's list
     let hidden := mode != "xx"
     if mode ∉ ["xx", "ik", "ik2", "ik3"] then ((), "bad-op") else
@@ -78,7 +98,13 @@ def step (_ : Unit) : List String → Unit × String
     | some p, some sCert, some cf =>
       -- the "authkeys" policy has an empty trust store: no chain verifies
       let cf := if pol == "authkeys" then { cf with chainOK := false } else cf
-      ((), predict hidden p sCert (sAdv != "wrongkey") cf (cAdv != "wrongkey"))
+      -- the server's policy with its additional callback
+      let p := { p with callback := sCbOn }
+      let cf := { cf with callbackOK := sCbOK }
+      -- the client's policy over the server's certificate: trust store (+ name), or skipped; its callback
+      let cPol : Policy := ⟨true, nameOpts.contains "skip", false, cCbOn⟩
+      let sFacts : CertFacts := { parses := true, formatOK := sCert, keyListed := false, chainOK := sCert, callbackOK := cCbOK }
+      ((), predict hidden p (policyAccepts cPol sFacts) (sAdv != "wrongkey") cf (cAdv != "wrongkey"))
     | _, _, _ => ((), "bad-op")
   | _ => ((), "bad-op")
 
